@@ -23,7 +23,7 @@ except RecursionError:
 except Exception as e:
     traceback.print_exc()
     print('replay: exception', type(e).__name__, e)
-    sys.exit(10)
+    sys.exit(10 if r.get('claim') == 'exception' else 11)
 bad = []
 if out['problems']:
     bad.append(out['problems'][:3])
